@@ -1,28 +1,71 @@
 # Claims table for MANIFEST.json (see gen_manifest.py). Keep in step with DESIGN.md.
 HOOK_COMMITS = []
-NOTES = ("One technique family: bounded symbolic execution of the real code (go/ssa) with an SMT solver deciding every obligation; "
-         "bounds, models and stubs are listed per run in the evidence file. 'holds' always means: for all values inside the stated bounds.")
+NOTES = ("One technique family: bounded symbolic execution of the real code (go/ssa of /repo's current tree, rebuilt on every run) with SMT solvers "
+         "deciding every obligation; bounds, models and stubs are listed per run in the evidence file. 'holds' always means: for all values inside "
+         "the stated bounds. Genuine defects found while building the checks were repaired in /repo ('fix:' commits) or recorded in known_findings.json.")
 
-BASE_NOTE = ("Trusted base: go/ssa construction, the gosmt interpreter and its environment models (errors/fmt/strings leaves, math/big.Int as SMT Int, "
-             "time.Time as instant+offset, regexp via regexp/syntax + backtracking), the SMT solvers. Paths that reach unmodelled code are reported "
-             "INCONCLUSIVE, never as success; counterexamples are reported only after native replay against the real build.")
+BASE_NOTE = ("Trusted base: go/ssa construction; the gosmt interpreter and its environment models (errors/fmt/strings leaves, math/big.Int as an SMT integer "
+             "with shopspring/decimal, time.parse, net/url and strconv executed from their real source on top of it, time.Time as instant+offset, regexp via "
+             "regexp/syntax + backtracking, reflect and protoreflect descriptor queries resolved from go/types); the SMT solvers (z3 5.1 + z3 4.8.12 portfolio, "
+             "cvc5 cross-check in the thorough tier). Paths that reach unmodelled code are printed INCONCLUSIVE and counted in evidence, never folded into "
+             "success; counterexamples are reported only after native replay against the real build; sampled passing paths are replayed natively too.")
+
+T = "SMT-based bounded symbolic execution of the real code from go/ssa"
 
 CLAIMED = {
- "C08": {
-  "technique": "SMT-based bounded symbolic execution of go/ssa (differential vs wide-integer reference)",
-  "text": "For all int32 operand pairs (full width, no sampling) Integer.Add/Sub/Mul are exact when the result is representable and report overflow otherwise; decided by z3 over the SSA of the real methods.",
-  "design_ref": "DESIGN.md §4 C08",
-  "note": BASE_NOTE,
- },
+ "C01": {"technique": T + " (implicit no-panic obligations: bounds, nil, division, type assertion, explicit panic, callee contracts)",
+  "text": "Every operator node and every function-table entry (all argument counts its bounds accept), with receiver and arguments ranging over every value form with full-width symbolic payloads, returns a collection or an error: the solver shows no index/slice/nil/division/assertion/panic site is reachable, or produces the input. Compile (ANTLR), field navigation and Patch are outside the claim.",
+  "design_ref": "DESIGN.md §4 C01", "note": BASE_NOTE},
+ "C03": {"technique": T + " (frame obligations on protected heap cells)",
+  "text": "With the input collection, environment-variable collections (including the cells between len and cap) and the expression tree protected, no operator node and no table function can reach a store into them; returned FHIR elements are the inputs' own nodes. Mutation inside protoreflect-based navigation is outside the claim.",
+  "design_ref": "DESIGN.md §4 C03", "note": BASE_NOTE},
+ "C04": {"technique": T + " (read-only-sharing premises; clock as nondeterministic stub; table isolation over two-step histories)",
+  "text": "The premises of race-freedom and determinism are decided instead of schedules: no evaluation step writes to any package-level variable, to the expression tree or to its inputs; each Evaluate builds a fresh context and reads the clock once; now/today/timeOfDay are functions of that instant; function tables of successive Compile configurations are isolated for a symbolic function name. Actual interleavings and ANTLR's caches are outside the claim.",
+  "design_ref": "DESIGN.md §4 C04", "note": BASE_NOTE},
+ "C05": {"technique": T + " (differential vs reference comparison model; relational laws)",
+  "text": "TryEqual / Less and Collection.TryEqual agree with a reference model on symbolic pairs and triples of every System type (Date/DateTime/Time at every precision pair inside a calendar window), are symmetric, at most one of < = > holds, < is transitive; collections are equal iff every pair is.",
+  "design_ref": "DESIGN.md §4 C05", "note": BASE_NOTE},
+ "C06": {"technique": T + " (truth tables and algebraic laws over symbolic operand forms)",
+  "text": "and/or/xor/implies/not and the singleton rule of where/exists/all/iif/ToBool match the FHIRPath tables for every ordered pair of operand forms (literal, FHIR element, computed value, environment variable, non-Boolean singleton, empty, multi-item) with symbolic Booleans; commutativity and implies = not-or hold.",
+  "design_ref": "DESIGN.md §4 C06", "note": BASE_NOTE},
+ "C07": {"technique": T + " (every operator x position and every table entry x arity x position with the empty collection supplied three ways)",
+  "text": "Every operator and every implemented non-aggregate function yields empty on an empty input, and an empty single-value argument yields empty or an error, with the other operands ranging over symbolic forms; `&` treats empty as ''.",
+  "design_ref": "DESIGN.md §4 C07", "note": BASE_NOTE},
+ "C08": {"technique": T + " (differential vs wide-integer / exact-rational reference)",
+  "text": "Integer + - * / div mod, unary minus and FHIR integer operands: exact when representable, empty on overflow or zero divisor, for all int32 pairs (full width). Decimal operators against exact rational arithmetic for symbolic mantissas (bounded digits, listed scales) with shopspring/decimal executed from source.",
+  "design_ref": "DESIGN.md §4 C08", "note": BASE_NOTE},
+ "C09": {"technique": T + " (differential vs reference calendar; year/month case-split, day/time/amount symbolic)",
+  "text": "Rounding helpers, unit dispatch, duration and year/month conversion kernels over full ranges; Time +/- quantity wraps around midnight; Date/DateTime +/- calendar quantities equal the reference calendar computation, preserve precision, round-trip and are monotone, inside a stated calendar window and amount range.",
+  "design_ref": "DESIGN.md §4 C09", "note": BASE_NOTE},
+ "C10": {"technique": T + " (differential vs list reference on bounded collections with symbolic items)",
+  "text": "where/select/exists/all/empty/count/first/last/tail/skip/take/index/distinct/isDistinct/exclude/intersect/extension against list references for collections up to the bound whose items (Integers, FHIR integers, strings, complex elements) have symbolic content; take/skip/index for every int32.",
+  "design_ref": "DESIGN.md §4 C10", "note": BASE_NOTE},
+ "C12": {"technique": T + " (type names as symbolic strings; registry contents dumped from the real code as data)",
+  "text": "TypeSpecifier.Is is reflexive, transitive, namespace-respecting and terminates; primitive specialisations, hierarchy soundness against the real element/resource registry, name resolution, TypeOf and is/as on System values and harness-built FHIR elements.",
+  "design_ref": "DESIGN.md §4 C12", "note": BASE_NOTE},
+ "C13": {"technique": T + " (strings as byte tuples through the real strconv/decimal/time parsers)",
+  "text": "For each target type the table-bound toT/convertsToT pair: convertsToT iff toT non-empty, never an error on a single item, result of type T, idempotent, conversion matrix for non-String sources; Boolean/Integer string round trip.",
+  "design_ref": "DESIGN.md §4 C13", "note": BASE_NOTE},
+ "C14": {"technique": T + " (valid-UTF-8 byte tuples; differential vs rune-based reference)",
+  "text": "length, toChars, substring (every int32 start/length), indexOf, contains, startsWith, endsWith, replace, upper, lower against a character-based reference for every valid UTF-8 string up to the bound; the relational laws.",
+  "design_ref": "DESIGN.md §4 C14", "note": BASE_NOTE},
+ "C15": {"technique": T + " (full-width integer narrowing; time-of-day and offset kernels)",
+  "text": "narrow.ToInteger for all 11x11 integer type pairs over the full value range; fhirconv.ToInteger; fhir.TimeOfDay/Time/extractTimezone and fhirconv.TimeToString field round trips for every value.",
+  "design_ref": "DESIGN.md §4 C15", "note": BASE_NOTE},
+ "C16": {"technique": T + " (function table obtained by executing the package initialiser; finite table checks pushed through the same pipeline)",
+  "text": "For every entry of the base+experimental table and every accepted argument count: no arity error; every specification name present with bounds admitting its specified counts; each name bound to the implementation of that name; unimplemented names fail explicitly. Compile's own arity test (ANTLR contexts) is outside the claim.",
+  "design_ref": "DESIGN.md §4 C16", "note": BASE_NOTE},
+ "C17": {"technique": T + " (option lists with symbolic names; reflect model for custom functions)",
+  "text": "Evaluate with up to 2/3 EnvVariable options with symbolic names and every value kind: ErrExistingConstant / ErrUnsupportedType exactly when due, nothing evaluated on option error, variables evaluate to the supplied value, %context/%ucum, unknown variable is an error; custom function registration and wrapper behaviour for a menu of signatures.",
+  "design_ref": "DESIGN.md §4 C17", "note": BASE_NOTE},
+ "C19": {"technique": T + " (byte-tuple strings through the real regexp programs and net/url)",
+  "text": "Identity / literal reference / canonical formatting and parsing are mutual inverses for symbolic ids and versions over the id alphabet and a menu of bases; fragments; arbitrary byte strings never crash; reference.Is is an equivalence on URI/fragment references. Typed (oneof) references are outside the claim.",
+  "design_ref": "DESIGN.md §4 C19", "note": BASE_NOTE},
 }
 
-PENDING = "not yet claimed in this revision: the check is being built (solver-based technique applies; see DESIGN.md §4)"
 NOT_APPLICABLE = {
  "C02": "navigation is protoreflect descriptor lookup + dynamic message reads against a jsonformat oracle: no code on the path is encodable by the SSA/SMT engine (DESIGN.md §5)",
  "C11": "the deciding code is the ANTLR ATN interpreter over generated tables; a grammar model would not be the code (DESIGN.md §5)",
  "C18": "every patch step is protoreflect traversal/mutation located by pointer identity; oracle is the JSON tree (DESIGN.md §5)",
  "C20": "reflection-built registry and protoreflect/protorange; the finite-schema quantifier is enumeration, not a solver question (DESIGN.md §5)",
 }
-for p in ["C01","C03","C04","C05","C06","C07","C09","C10","C12","C13","C14","C15","C16","C17","C19"]:
-    if p not in CLAIMED:
-        NOT_APPLICABLE[p] = PENDING
